@@ -270,6 +270,7 @@ def cfg_text(infile, outfile, consts, invariants):
               '  TieBreakByOrder = %s' % consts['TieBreakByOrder'],
               '  RevertOrphanTransfer = %s' % consts['RevertOrphanTransfer'],
               '  ZeroNeedsPlace = %s' % consts.get('ZeroNeedsPlace', 'TRUE'),
+              '  TooBigSkipped = %s' % consts.get('TooBigSkipped', 'TRUE'),
               '  InputSet <- Inputs',
               '  InFile = "%s"' % infile,
               '  OutFile = "%s"' % outfile,
